@@ -17,7 +17,7 @@ import traceback
 VERIF = os.path.dirname(os.path.dirname(os.path.abspath(__file__)))
 REPO = os.environ.get('VERIF_REPO', '/repo')
 SPECS = os.path.join(VERIF, 'specs')
-EVIDENCE = os.path.join(VERIF, 'evidence')
+EVIDENCE = os.environ.get('VERIF_EVIDENCE_DIR') or os.path.join(VERIF, 'evidence')   # redirected by mutant runs only
 REPLAYS = os.path.join(EVIDENCE, 'replays')
 FINDINGS_FILE = os.path.join(VERIF, 'known_findings.json')
 
